@@ -1,5 +1,5 @@
 PROP = {
- 'file_prefixes': ['c07_', 'c08_'],
+ 'file_prefixes': ['c07_', 'c08_', 'c09_'],
  'technique': 'model-based property testing (rapid) of the real udpSessionManager in a testing/synctest bubble with a generated '
               'deny-set policy in the fake outbound (UDP()/CheckUDP()), exact accounting of socket writes; plus a differential '
               'aclEngine.CheckUDP vs aclEngine.UDP over generated rule lists',
@@ -21,4 +21,9 @@ PROP = {
    {'name': 'TestVerifC08_Policy', 'unit': 'core:server', 'quick': 2000, 'thorough': 20000, 'shards': 2, 'shards_thorough': 12,
     'timeout_quick': 900, 'timeout_thorough': 3600},
    {'name': 'TestVerifC08_CheckUDPvsUDP', 'unit': 'extras:outbounds', 'quick': 20000, 'thorough': 100000, 'shards_thorough': 8},
+   # the real ACL policy engine must give the SAME verdict for a destination whatever was looked up before
+   # (reuses C09's engine-level model-based test; the ops include UDP()/CheckUDP(); caught seeded C08-4: a
+   # port-agnostic cache entry answering a later lookup of the same host on a port-specific reject rule)
+   {'name': 'TestVerifC09_Engine', 'unit': 'extras:outbounds', 'quick': 4000, 'thorough': 40000, 'shards_thorough': 8, 'timeout_quick': 1800},
+   {'name': 'TestVerifC09_EngineEvict', 'unit': 'extras:outbounds', 'quick': 150, 'thorough': 1500, 'shards_thorough': 8, 'timeout_quick': 1800},
  ]}
